@@ -761,9 +761,9 @@ func (r *vC01Rig) observeOffline(n *vC01Node) string {
 	r.mu.Lock()
 	defer r.mu.Unlock()
 	meta, data := n.snaps.newest()
-	var last *vC01Ev
+	var last *vC01Ev // the newest snapshot this member persisted itself: the highest index, the later one among equals
 	for i := range r.trace {
-		if r.trace[i].Kind == "persist" && r.trace[i].Node == n.idx {
+		if r.trace[i].Kind == "persist" && r.trace[i].Node == n.idx && (last == nil || r.trace[i].Idx >= last.Idx) {
 			last = &r.trace[i]
 		}
 	}
